@@ -127,3 +127,13 @@ package actionlint
 //@     at_call errorfAtExpr: e == n.Args[i] && a == args0[i]
 //@   loop "range rest":
 //@     at_call errorfAtExpr: e == n.Args[lp + i] && a == args0[lp + i]
+
+// "parser did not reach end of input" is reported at the first token that was not consumed: Parse itself
+// consumes nothing (it drains the lexer, not the parser's lookahead)
+//@ func (*ExprParser).peek
+//@   props C07
+//@   ensures result == p.cur
+//@ func (*ExprParser).Parse
+//@   props C07
+//@   forbid_call (*ExprParser).next
+//@   at_call (*ExprParser).errorf: p.cur == t
